@@ -228,7 +228,8 @@ class Recorder:
 
         def data(*a, **k):
             r = orig_data(*a, **k)
-            rec.data.append((a, k, r))
+            # copy: the caller adds the prior IN PLACE when the result is an array
+            rec.data.append((a, k, np.array(r, dtype=float).copy()))
             return r
 
         def single(*a, **k):
